@@ -113,22 +113,22 @@ theorem tradeoffCurve_some_inv {flip : Bool} {xm ym : Metric} {rows : List Row} 
 
 /-! ### grid values -/
 
-theorem gridVal_zero (N : Nat) : gridVal N 0 = 0 := by simp [gridVal]
+theorem gridVal_zero (N : Nat) : gridVal N 0 = 0 := by simp [src_gridVal]
 
 theorem gridVal_pos {N i : Nat} (hN : 1 ≤ N) (hi : 1 ≤ i) : 0 < gridVal N i := by
-  unfold gridVal
+  rw [src_gridVal]
   have h1 : (0 : Rat) < i := by exact_mod_cast hi
   have h2 : (0 : Rat) < N := by exact_mod_cast hN
   exact div_pos h1 h2
 
 theorem gridVal_le_one {N i : Nat} (hN : 1 ≤ N) (hi : i ≤ N) : gridVal N i ≤ 1 := by
-  unfold gridVal
+  rw [src_gridVal]
   have h2 : (0 : Rat) < N := by exact_mod_cast hN
   rw [div_le_one h2]
   exact_mod_cast hi
 
 theorem gridVal_nonneg (N i : Nat) : 0 ≤ gridVal N i := by
-  unfold gridVal; positivity
+  rw [src_gridVal]; positivity
 
 /-- every grid point of a good group gets a proper interpolation -/
 theorem group_interpolate {flip : Bool} {xm ym : Metric} {rows : List Row} {H : List Pt}
